@@ -25,6 +25,15 @@ def apply_contract(ip, c, info, args, kwargs, st, node):
         return
     ctx.contracts_used[c.key] += 1
     line = getattr(node, 'lineno', 0)
+    # a contract describes the callee for the parameters it lists (the others at their defaults): a call that passes
+    # a parameter the contract does not describe is outside the contract - refusing is the only sound answer
+    a_ = info.node.args
+    names_ = [p.arg for p in a_.posonlyargs + a_.args]
+    given_ = set(names_[:len(args)]) | set(kwargs)
+    undescribed = sorted(n for n in given_ if n not in c.params and c.params)
+    if undescribed:
+        raise EngineError(f'contract does not bind: the call of {info.qualname} at line {line} passes {undescribed}, which the '
+                          f'contract of {info.qualname} does not describe (it was verified with the default value)')
     if ctx.spec_depth:
         if not c.functional:
             raise EngineError(f'specification calls {info.qualname}, which is used through a non-functional contract')
